@@ -93,6 +93,18 @@ def oracleConst {α β : Type} [JCodec β] (key : String) (r : Req) : α → Py 
     | .error _ => .error .other
   | .error _ => .error (oracleErr key r)
 
+/-- stand-in for an oracle of one integer argument that is called several times: `"oracle": {key: [[arg, answer], …]}` -/
+def oracleTableInt {β : Type} [JCodec β] (key : String) (r : Req) : Int → Py β := fun x =>
+  match r.oracle.getObjVal? key with
+  | .ok j =>
+    match (JCodec.dec j : Except String (List (Int × β))) with
+    | .ok tbl =>
+      match tbl.find? (fun p => p.1 == x) with
+      | some p => .ok p.2
+      | none => .error (oracleErr key r)
+    | .error _ => .error .other
+  | .error _ => .error (oracleErr key r)
+
 /-- the same for an oracle of three arguments -/
 def oracleConst3 {α β γ ζ : Type} [JCodec ζ] (key : String) (r : Req) : α → β → γ → Py ζ := fun _ _ _ =>
   match r.oracle.getObjVal? key with
